@@ -12,15 +12,15 @@ def check(tier):
     dl = Deadline(420 if tier == "quick" else 3000)
     flat = families.core_cases(1) + (families.core_cases(2, terms=("x", "y"), consts=(), cmp_ops=("<",)) if tier == "quick" else families.core_cases(2))
     if tier == "quick":
-        flat = families.core_cases(1) + families.core_cases(2, terms=("x", "y"), consts=(), cmp_ops=("<",))[::3]
+        flat = families.core_cases(1) + families.core_cases(2, terms=("x", "y"), consts=(), cmp_ops=("<",))[::8]
     cases = []
-    for c in flat:
-        cases += gen4.component_wrappings(c, c.cid)
+    for i, c in enumerate(flat):
+        cases += gen4.component_wrappings(c, i)
     # cids must be unique per differential call: one call per template
     by = {}
     for c in cases:
         by.setdefault(c.family, []).append(c)
-    dbs = gen.dbs_core_quick()[12:] if tier == "quick" else gen.dbs_core_quick()
+    dbs = gen.dbs_core_quick()[-6:] if tier == "quick" else gen.dbs_core_quick()
     cfg = [diff.Config("interp-j1", "interp", 1)]
     for fam, cs in sorted(by.items()):
         if dl.expired():
